@@ -215,6 +215,7 @@ class Ctx:
         self.mode = mode
         self.counter = 0
         self.ghost_log = []
+        self.elementwise = []  # (bound Int variable, body) of element-wise facts; instantiated at the contract's ghost positions before the postcondition
 
     def oblige(self, st: State, goal, kind, where, guards=(), info=None):
         self.counter += 1
@@ -911,6 +912,12 @@ class Exec:
             base = base.val
         if isinstance(n.slice, ast.Slice):
             return self.slice(base, n.slice, st)
+        if isinstance(n.slice, ast.Tuple) and isinstance(base, VSeq) and base.kind == "ndarray2":
+            # numpy 2-d array modelled as its sequence of columns: arr[:, k] is column k (A-LIB); nothing else is modelled
+            el = n.slice.elts
+            if len(el) == 2 and isinstance(el[0], ast.Slice) and el[0].lower is None and el[0].upper is None and el[0].step is None:
+                return self.index(base, self.eval(el[1], st), st, n)
+            raise OutOfReach("numpy indexing other than arr[:, k]")
         idx = self.eval(n.slice, st)
         return self.index(base, idx, st, n)
 
